@@ -21,6 +21,18 @@ pub enum Item<'a> {
 
 const MAX_DEPTH: usize = 400;
 
+thread_local! {
+    /// whether the walk enters nested SVG images (separate `Tree`s with their own collections)
+    static DESCEND_IMAGES: std::cell::Cell<bool> = std::cell::Cell::new(true);
+}
+
+/// walk one `Tree` only; nested SVG images are reported as `Item::SubTree` but not entered
+pub fn walk_tree_shallow<'a>(t: &'a usvg::Tree, f: &mut dyn FnMut(Item<'a>, &str)) {
+    DESCEND_IMAGES.with(|d| d.set(false));
+    walk_group(t.root(), 0, "root", f);
+    DESCEND_IMAGES.with(|d| d.set(true));
+}
+
 pub fn walk_tree<'a>(t: &'a usvg::Tree, f: &mut dyn FnMut(Item<'a>, &str)) {
     walk_group(t.root(), 0, "root", f);
 }
@@ -100,18 +112,23 @@ pub fn walk_group<'a>(g: &'a Group, depth: usize, at: &str, f: &mut dyn FnMut(It
                 f(Item::Image(im), &here);
                 if let ImageKind::SVG(t) = im.kind() {
                     f(Item::SubTree(t), &here);
-                    walk_group(t.root(), depth + 1, &format!("{}/svg-image", here), f);
+                    if DESCEND_IMAGES.with(|d| d.get()) {
+                        walk_group(t.root(), depth + 1, &format!("{}/svg-image", here), f);
+                    }
                 }
             }
             Node::Text(t) => {
                 f(Item::Text(t), &here);
+                let span_at = format!("{}/text-span", here);
                 for ch in t.chunks() {
                     for sp in ch.spans() {
-                        if let Some(fill) = sp.fill() {
-                            walk_paint(fill.paint(), depth, &here, f);
+                        let d = sp.decoration();
+                        let decos = [d.underline(), d.overline(), d.line_through()];
+                        for fill in sp.fill().into_iter().chain(decos.iter().filter_map(|x| x.and_then(|x| x.fill()))) {
+                            walk_paint(fill.paint(), depth, &span_at, f);
                         }
-                        if let Some(st) = sp.stroke() {
-                            walk_paint(st.paint(), depth, &here, f);
+                        for st in sp.stroke().into_iter().chain(decos.iter().filter_map(|x| x.and_then(|x| x.stroke()))) {
+                            walk_paint(st.paint(), depth, &span_at, f);
                         }
                     }
                 }
@@ -333,11 +350,226 @@ pub fn check_written_units(t: &usvg::Tree, v: &mut Vec<Viol>) {
     }
 }
 
+// ---------------------------------------------------------------------------------------------
+// C05: references are closed, unique and well-founded
+// ---------------------------------------------------------------------------------------------
+
+fn input_ids_unique(data: &[u8]) -> bool {
+    let Ok(text) = std::str::from_utf8(data) else { return false };
+    let Ok(doc) = usvg::roxmltree::Document::parse_with_options(text, usvg::roxmltree::ParsingOptions { allow_dtd: true, nodes_limit: u32::MAX }) else {
+        return false;
+    };
+    let mut seen = std::collections::HashSet::new();
+    for n in doc.descendants().filter(|n| n.is_element()) {
+        if let Some(id) = n.attribute("id") {
+            if !seen.insert(id.to_string()) {
+                return false;
+            }
+        }
+    }
+    true
+}
+
+fn check_filter_params(fl: &filter::Filter, at: &str, v: &mut Vec<Viol>) {
+    let mut results: Vec<&str> = vec![];
+    for (i, p) in fl.primitives().iter().enumerate() {
+        let mut inputs: Vec<&filter::Input> = vec![];
+        match p.kind() {
+            filter::Kind::Blend(k) => inputs.extend([k.input1(), k.input2()]),
+            filter::Kind::ColorMatrix(k) => {
+                inputs.push(k.input());
+                if let filter::ColorMatrixKind::Matrix(m) = k.kind() {
+                    if m.len() != 20 {
+                        v.push(Viol { sig: "C05:color-matrix-size".into(), what: format!("{}: filter {} feColorMatrix with {} values", at, fl.id(), m.len()) });
+                    }
+                }
+            }
+            filter::Kind::ComponentTransfer(k) => inputs.push(k.input()),
+            filter::Kind::Composite(k) => inputs.extend([k.input1(), k.input2()]),
+            filter::Kind::ConvolveMatrix(k) => {
+                inputs.push(k.input());
+                let m = k.matrix();
+                let ok = m.columns() > 0 && m.rows() > 0 && m.data().len() == (m.columns() * m.rows()) as usize && m.target_x() < m.columns() && m.target_y() < m.rows() && k.divisor().get() != 0.0;
+                if !ok {
+                    v.push(Viol { sig: "C05:convolve-matrix-shape".into(), what: format!("{}: filter {} feConvolveMatrix {}x{} data {} target {},{} divisor {}", at, fl.id(), m.columns(), m.rows(), m.data().len(), m.target_x(), m.target_y(), k.divisor().get()) });
+                }
+            }
+            filter::Kind::DiffuseLighting(k) => inputs.push(k.input()),
+            filter::Kind::DisplacementMap(k) => inputs.extend([k.input1(), k.input2()]),
+            filter::Kind::DropShadow(k) => inputs.push(k.input()),
+            filter::Kind::GaussianBlur(k) => inputs.push(k.input()),
+            filter::Kind::Merge(k) => inputs.extend(k.inputs().iter()),
+            filter::Kind::Morphology(k) => {
+                inputs.push(k.input());
+                if !(k.radius_x().get() >= 0.0 && k.radius_y().get() >= 0.0) {
+                    v.push(Viol { sig: "C05:morphology-radius".into(), what: format!("{}: filter {} radius {} {}", at, fl.id(), k.radius_x().get(), k.radius_y().get()) });
+                }
+            }
+            filter::Kind::Offset(k) => inputs.push(k.input()),
+            filter::Kind::SpecularLighting(k) => {
+                inputs.push(k.input());
+                let e = k.specular_exponent();
+                if !(1.0..=128.0).contains(&e) {
+                    v.push(Viol { sig: "C05:specular-exponent".into(), what: format!("{}: filter {} specularExponent {}", at, fl.id(), e) });
+                }
+            }
+            filter::Kind::Tile(k) => inputs.push(k.input()),
+            filter::Kind::Flood(_) | filter::Kind::Image(_) | filter::Kind::Turbulence(_) => {}
+        }
+        for inp in inputs {
+            if let filter::Input::Reference(name) = inp {
+                if !results.contains(&name.as_str()) {
+                    v.push(Viol { sig: "C05:filter-input-dangling".into(), what: format!("{}: filter {} primitive {} reads result {:?}; earlier results: {:?}", at, fl.id(), i, name, results) });
+                }
+            }
+        }
+        results.push(p.result());
+    }
+}
+
+pub fn check_c05(t: &usvg::Tree, ids_unique_in_input: bool, where_: &str, v: &mut Vec<Viol>) {
+    use std::collections::{HashMap, HashSet};
+    use std::sync::Arc;
+    // reachable definitions by address, with the place they were first met
+    let mut reach: [HashMap<usize, (String, String)>; 6] = Default::default();
+    let names = ["linear-gradient", "radial-gradient", "pattern", "clip-path", "mask", "filter"];
+    let mut node_ids: Vec<(String, usize, bool, &'static str)> = vec![]; // id, address, in main tree (not a sub-root)
+    let mut subtrees: Vec<(&usvg::Tree, String)> = vec![];
+    walk_tree_shallow(t, &mut |it, at| {
+        let in_main = !at.contains('(') && !at.contains("feImage") && !at.contains("flattened");
+        let flattened = at.contains("/flattened");
+        let cat: &'static str = if at.contains("feImage") { "feImage-content" } else if at.contains("/pattern(") { "pattern-content" } else if at.contains("/clip(") { "clip-content" } else if at.contains("/mask(") { "mask-content" } else if flattened { "flattened-text" } else { "main" };
+        let mut def = |k: usize, addr: usize, id: &str| {
+            if id.is_empty() {
+                v.push(Viol { sig: format!("C05:empty-id:{}", names[k]), what: format!("{}{}: {} without id", where_, at, names[k]) });
+            }
+            reach[k].entry(addr).or_insert((at.to_string(), id.to_string()));
+        };
+        match it {
+            Item::Linear(x) => def(0, x as *const _ as usize, x.id()),
+            Item::Radial(x) => def(1, x as *const _ as usize, x.id()),
+            Item::Pattern(x) => def(2, x as *const _ as usize, x.id()),
+            Item::Clip(x) => def(3, x as *const _ as usize, x.id()),
+            Item::Mask(x) => def(4, x as *const _ as usize, x.id()),
+            Item::Filter(x) => {
+                def(5, x as *const _ as usize, x.id());
+                check_filter_params(x, at, v);
+            }
+            Item::Group(g) => {
+                if !g.id().is_empty() && !(flattened && at.ends_with("/flattened")) {
+                    node_ids.push((g.id().to_string(), g as *const _ as usize, in_main, cat));
+                }
+            }
+            Item::Path(p) => {
+                if !p.id().is_empty() {
+                    node_ids.push((p.id().to_string(), p as *const _ as usize, in_main, cat));
+                }
+            }
+            Item::Image(p) => {
+                if !p.id().is_empty() {
+                    node_ids.push((p.id().to_string(), p as *const _ as usize, in_main, cat));
+                }
+            }
+            Item::Text(p) => {
+                if !p.id().is_empty() {
+                    node_ids.push((p.id().to_string(), p as *const _ as usize, in_main, cat));
+                }
+            }
+            Item::SubTree(st) => subtrees.push((st, format!("{}{}/svg-image:", where_, at))),
+            Item::TooDeep => v.push(Viol { sig: "C05:chain-not-finite".into(), what: format!("{}{}: reference chain deeper than {}", where_, at, MAX_DEPTH) }),
+        }
+    });
+    // collections
+    let coll: [Vec<(usize, String)>; 6] = [
+        t.linear_gradients().iter().map(|a| (Arc::as_ptr(a) as usize, a.id().to_string())).collect(),
+        t.radial_gradients().iter().map(|a| (Arc::as_ptr(a) as usize, a.id().to_string())).collect(),
+        t.patterns().iter().map(|a| (Arc::as_ptr(a) as usize, a.id().to_string())).collect(),
+        t.clip_paths().iter().map(|a| (Arc::as_ptr(a) as usize, a.id().to_string())).collect(),
+        t.masks().iter().map(|a| (Arc::as_ptr(a) as usize, a.id().to_string())).collect(),
+        t.filters().iter().map(|a| (Arc::as_ptr(a) as usize, a.id().to_string())).collect(),
+    ];
+    for k in 0..6 {
+        let mut seen = HashSet::new();
+        for (addr, id) in &coll[k] {
+            if !seen.insert(*addr) {
+                v.push(Viol { sig: format!("C05:collection-duplicate:{}", names[k]), what: format!("{}{} {} listed twice", where_, names[k], id) });
+            }
+            if id.is_empty() {
+                v.push(Viol { sig: format!("C05:empty-id:{}", names[k]), what: format!("{}{} in collection without id", where_, names[k]) });
+            }
+        }
+        for (addr, (at, id)) in &reach[k] {
+            if !seen.contains(addr) {
+                let how = if at.contains("/text-span") { "text-span" } else if at.contains("/clip(") && k == 3 { "nested-chain" } else if at.contains("/mask(") && k == 4 { "nested-chain" } else { "missing" };
+                v.push(Viol { sig: format!("C05:not-in-collection:{}:{}", names[k], how), what: format!("{}{} {:?} reachable at {} is not in the tree's collection {:?}", where_, names[k], id, at, coll[k].iter().map(|c| c.1.clone()).collect::<Vec<_>>()) });
+            }
+        }
+    }
+    // id uniqueness across all definitions and renderable nodes
+    if ids_unique_in_input {
+        let mut all: HashMap<String, String> = HashMap::new();
+        for k in 0..6 {
+            for (addr, id) in &coll[k] {
+                // where the definition is used: colour-font glyph sub-trees live in flattened text
+                let origin = match reach[k].get(addr) {
+                    Some((at, _)) if at.contains("/flattened") => "(in-flattened-text)",
+                    _ => "",
+                };
+                let me = format!("{}{}", names[k], origin);
+                if let Some(prev) = all.insert(id.clone(), me.clone()) {
+                    v.push(Viol { sig: format!("C05:duplicate-id:{}+{}", prev, me), what: format!("{}id {:?} carried by a {} and a {}", where_, id, prev, me) });
+                }
+            }
+        }
+        let mut seen_nodes: HashMap<String, (usize, &'static str)> = HashMap::new();
+        for (id, addr, _, cat) in &node_ids {
+            if let Some((prev, pcat)) = seen_nodes.get(id) {
+                if prev != addr {
+                    let (a, b) = if pcat <= cat { (pcat, cat) } else { (cat, pcat) };
+                    v.push(Viol { sig: format!("C05:duplicate-id:node({})+node({})", a, b), what: format!("{}id {:?} carried by two renderable nodes ({} and {})", where_, id, a, b) });
+                }
+            } else {
+                seen_nodes.insert(id.clone(), (*addr, cat));
+                if let Some(prev) = all.get(id) {
+                    v.push(Viol { sig: format!("C05:duplicate-id:{}+node", prev), what: format!("{}id {:?} carried by a {} and a renderable node", where_, id, prev) });
+                }
+            }
+        }
+    }
+    // lookup by id
+    for (id, addr, in_main, _) in &node_ids {
+        if !*in_main {
+            continue;
+        }
+        let got = t.node_by_id(id).map(|n| match n {
+            Node::Group(g) => &**g as *const _ as usize,
+            Node::Path(p) => &**p as *const _ as usize,
+            Node::Image(p) => &**p as *const _ as usize,
+            Node::Text(p) => &**p as *const _ as usize,
+        });
+        match got {
+            None => v.push(Viol { sig: "C05:node-by-id:none".into(), what: format!("{}node_by_id({:?}) found nothing although a node carries the id", where_, id) }),
+            Some(a) if a != *addr && ids_unique_in_input => {
+                // with unique ids the node found must be the one carrying the id
+                if t.node_by_id(id).map(|n| n.id() != id).unwrap_or(true) {
+                    v.push(Viol { sig: "C05:node-by-id:wrong".into(), what: format!("{}node_by_id({:?}) returned a node with another id", where_, id) });
+                }
+            }
+            _ => {}
+        }
+    }
+    for (st, w) in subtrees {
+        // nested documents are parsed on their own; their ids are unique within themselves only if checked there
+        check_c05(st, false, &w, v);
+    }
+}
+
 /// run all contracts of `prop` on a tree
-pub fn check(prop: &str, t: &usvg::Tree) -> Vec<Viol> {
+pub fn check(prop: &str, t: &usvg::Tree, data: &[u8]) -> Vec<Viol> {
     let mut v = vec![];
     match prop {
         "C04" => check_c04(t, &mut v),
+        "C05" => check_c05(t, input_ids_unique(data), "", &mut v),
         _ => {}
     }
     v
